@@ -17,15 +17,17 @@ PROP = "C06"
 READY = True
 DRIVER = "dm_graph"
 LEAN_MODULES = ["DaskModel.Props.C06"]
-LEVEL_TEXT = ("PARTIAL by design (order() is ~600 lines of heuristics): Lean 4 theorem validOrder_iff proves that the executable "
-              "checker validOrder accepts a (graph, priority dict) pair iff the statement holds for it (a priority for exactly the "
-              "graph's keys, pairwise distinct, every key above all its in-graph dependencies); every real dask.order.order output "
-              "of the run (all DAGs <= 3 nodes x all node-kind assignments, sampled 4-node DAGs, random graphs <= 60 nodes with "
-              "task/data/non-task nodes and external references, array/bag/delayed graphs) is passed through the compiled "
-              "checker together with the dependencies the real code reads. Proved about the code itself only: the arithmetic of "
-              "the repaired leaf-stripping frame (stripPrio_inj, stripPrio_gt_core, stripPrio_later_lt) and the collision of the "
-              "unrepaired formula (old_formula_collides). The heuristic core (critical path walk, process_runnables) is validated "
-              "per output (translation validation), not proved as an algorithm; cyclic graphs: rejection validated.")
+LEVEL_TEXT = ("PARTIAL by design (order() is ~600 lines of heuristics), two layers. (1) Proved checker: validOrder_iff -- the "
+              "executable validOrder accepts a (graph, priority dict) pair iff the statement holds for it (a priority for exactly "
+              "the graph's keys, pairwise distinct, every key above all its in-graph dependencies); every real order() output "
+              "of the run goes through the compiled checker with the dependencies the real code reads. (2) Proved frame: "
+              "order_frame_valid -- for the transliterated normalisation loop (stripping of non-task leaves, removal of shared "
+              "data roots, DependenciesMapping._removed semantics) and ANY core that emits each remaining internal key once and "
+              "after its dependencies (CoreOK), the returned dict (stripped leaves at expected_len-1-j, core keys 0,1,.., "
+              "external keys deleted) satisfies the statement; via strip_inv (every dependent of a stripped leaf was stripped "
+              "before it) and the stripPrio arithmetic; old_formula_collides shows why the unrepaired code was wrong. NOT proved: "
+              "that the heuristic core (critical-path walk, process_runnables, add_to_result) satisfies CoreOK -- validated per "
+              "output; cyclic graphs: rejection validated.")
 LEVEL_NOTE = ("Trusted: Lean kernel + standard axioms; the harness that extracts dependencies (DependenciesMapping) and interns "
               "keys; an independent Python oracle is diffed against the proved checker on every case. Fixed in /repo: colliding "
               "priorities with >= 2 stripped non-task leaves (DESIGN 6 #2). Observation (not a violation of the statement, "
